@@ -582,6 +582,16 @@ def long_inputs_suite(world, pool, tier, rng):
         world.load_doc(slot, json.dumps(j).encode(), "strn", tag="load")
         metas.append((len(world.ops), {"kind": "item", "doc": json.dumps(j)[:60] + "...", "longest": max(len(str(x)) for x in j.values())}))
         world.op("jwks %d item 0" % slot, tag="item")
+    # a private OKP JWK that also carries the `x` of another key, an EC one with the `d` of another key: flagged with a message, or usable
+    for kind_, param_ in (("okp", "ED25519"), ("okp", "ED448"), ("ec", "P-256")):
+        ka_, kb_ = K.gen_key(kind_, param_, world.ctx.scratch), K.gen_key(kind_, param_, world.ctx.scratch)
+        ja_, jb_ = ka_.jwk(private=True), kb_.jwk(private=True)
+        mixes = [dict(ja_, x=jb_["x"])] if kind_ == "okp" else [dict(ja_, d=jb_["d"]), dict(ja_, x=jb_["x"])]
+        for j_ in mixes:
+            world.op("jwks %d del" % slot, cmp=False, tag="cfg")
+            world.load_doc(slot, json.dumps(j_).encode(), "strn", tag="load")
+            metas.append((len(world.ops), {"kind": "item", "doc": "private %s %s JWK with a member of another key" % (kind_, param_), "longest": 5}))
+            world.op("jwks %d item 0" % slot, tag="item")
     # keys that share a key id, in one document and across two loads of the same document: whatever the set makes of them,
     # an item is flagged with a message or usable
     okey = pool.keys["oct32"]
@@ -777,10 +787,35 @@ def py_wellformed(tok):
     return isinstance(th.get("alg"), str) and th["alg"] in ALG_NAMES
 
 
-def token_bytes(world, pool, tier, rng):
+def token_bytes(world, pool, tier, rng, provider="openssl"):
     metas = []
     thorough = tier == "thorough"
     items = load_pool_keys(world, pool)
+    if provider != "openssl":
+        # the other provider runs its own length and framing checks on the decoded third segment before the library call:
+        # third segments of every length around each algorithm's signature size, for every public-key algorithm
+        world.op("prov name " + hx(provider.encode()), tag="cfg")
+        for ci, (kname, key) in enumerate(pool.keys.items()):
+            if key.kind == "oct":
+                continue
+            for alg in key.admissible_algs():
+                if alg == "ES256K" and provider == "gnutls":
+                    continue
+                world.op("ck %d new" % ci, tag="cfg")
+                world.op("ck %d setkey %d %d %d" % ((ci, K.ALG_ORD[alg]) + items[kname]), tag="cfg")
+                msg = seg({"alg": alg}) + b".e30"
+                good = pool.sign(kname, alg, msg)
+                n0 = len(K.b64u_dec(good)) if good else 64
+                lens = sorted(set([0, 1, 2, 3, 7, 8, 31, 32, 33, 47, 48, 49, 56, 57, 58, 63, 64, 65, 66, 113, 114, 115, 131, 132, 133, 255, 256, 257] +
+                                  [max(0, n0 + d) for d in (-2, -1, 0, 1, 2)]))
+                for n in lens:
+                    for fill in (b"\x00", b"\xff", None):
+                        raw = (bytes(rng.randrange(256) for _ in range(n)) if fill is None else fill * n)
+                        tok = msg + b"." + K.b64u(raw).encode()
+                        metas.append((len(world.ops), {"kind": "verify", "cfg": kname + "/" + alg + " under " + provider, "len": len(tok), "wellformed": True, "may_accept": False}))
+                        world.op("ck %d verify %s" % (ci, hx(tok)), tag="verify")
+        world.op("prov name " + hx(b"openssl"), tag="cfg")
+        return metas
     cfgs = [("nokey", None)] + [(n, n) for n in pool.keys] + [("nokey+claims", None), ("oct32+claims", "oct32"),
                                                               ("nokey+cb-refuses", None), ("oct32+cb-edits", "oct32")]
     for ci, (cname, kname) in enumerate(cfgs):
@@ -2401,6 +2436,14 @@ def jwk_shapes_suite(world, pool, tier, rng):
         docs.append(("via-%s-nul" % via, json.dumps(some[0]).encode() + b"\x00trailing", via))
         docs.append(("via-%s-set" % via, json.dumps({"keys": some[:3]}).encode(), via))
     docs.append(("via-str-NULL", None, "str"))
+    # a document in which an object repeats a member name is still JSON (the last one counts), through every entry point alike
+    dupdoc = json.dumps({"keys": some[:3]}).encode()
+    k0 = json.dumps(some[0])
+    dup1 = ('{"keys":[' + k0[:-1] + ',"kid":"first","kid":"second"},' + json.dumps(some[1]) + "," + json.dumps(some[2]) + "]}").encode()
+    dup2 = ('{"keys":[],"keys":[' + json.dumps(some[0]) + "," + json.dumps(some[1]) + "]}").encode()
+    for via in ("strn", "str", "create", "file", "fp", "pipe"):
+        docs.append(("duplicate member name inside a key", dup1, via))
+        docs.append(("duplicate `keys` member", dup2, via))
     # a stream that cannot seek (a pipe from another process), and documents of every size through every entry point
     for label_, text_ in (("via-pipe", json.dumps(some[0]).encode()), ("via-pipe-bad", b"{not json"), ("via-pipe-set", json.dumps({"keys": some[:3]}).encode()),
                           ("via-pipe-empty", b"")):
@@ -2591,6 +2634,21 @@ def jwk_import_suite(world, pool, tier, rng):
             s += 1
             if s > 1020:
                 s = 1000
+    # public RSA keys of every size the library's back end takes (OpenSSL: to 16384 bits), on both sides of the points where
+    # the base64url text of the modulus passes 1024, 2048, 2730 characters: the import does not test primality, so an odd
+    # number of the right size stands for a modulus
+    for bits in [6144, 8184, 8192, 8200, 12288, 12289, 12296, 15360, 16376, 16384]:
+        n_ = (1 << (bits - 1)) | rng.getrandbits(bits - 1) | 1
+        syn = K.Key("rsa", n=n_, e=65537, bits=bits)
+        world.op("jwks %d del" % s, cmp=False, tag="cfg")
+        world.load_doc(s, json.dumps(syn.jwk(private=False)).encode(), "strn")
+        want = {"kty": 2, "alg": 0, "bits": bits, "priv": 0, "err": 0, "emsg": 0, "kid": "NULL", "use": 0, "ops": 0, "crv": "NULL", "pem": 1, "oct": "NULL"}
+        metas.append((len(world.ops), {"kind": "import", "key": "public RSA JWK with a %d-bit modulus" % bits, "private": False, "alg": None, "pad": True, "zeropad": 0,
+                                       "extra": [], "want": want}))
+        world.op("jwks %d item 0" % s, tag="item")
+        s += 1
+        if s > 1020:
+            s = 1000
     return metas
 
 
